@@ -212,14 +212,24 @@ fn run(line: &str) -> String {
     };
     let c = dump.counts.iter().map(|k| join(k)).collect::<Vec<_>>().join("|");
     let u: String = dump.uses_input_counts.iter().map(|&b| if b { '1' } else { '0' }).collect();
-    // The counts of the inputs each recorded sample was given, per kind with an input counter:
+    // What the run must have stored per kind: `=c` a constant counter c had the last word, `!` no counter,
+    // otherwise (input counter) the counts of the inputs each recorded sample was given: `-` no samples, else
     // samples joined by `;`, a sample = comma list of counts, `v^k` = k inputs of count v.
     let n = dump.durations.len() as u64;
     let s = dump.sample_size as u64;
     let exp: Vec<String> = (0..4)
         .map(|k| {
-            if !inp.contains(&k) {
-                "*".to_string()
+            if post.contains(&k) {
+                // a constant set after the input counter replaces it
+                format!("={}", konst(3000, k))
+            } else if !inp.contains(&k) {
+                if pre.contains(&k) {
+                    format!("={}", konst(2000, k))
+                } else if opt.contains(&k) {
+                    format!("={}", konst(1000, k))
+                } else {
+                    "!".to_string()
+                }
             } else if n == 0 {
                 "-".to_string()
             } else {
